@@ -55,12 +55,17 @@ META['C01'] = {
              "(importCell / reorderCells / revisit / serializeBoc) is modelled statement by statement, extracted and "
              "compared byte-for-byte with Cell.ToBocCustom for all 8 option combinations, and every output carries a "
              "certificate evaluated by the extracted proved parser (parses to one root with the original hash, every "
-             "cell stored once, cell count = number of distinct reachable sub-cells) — the reordering itself is "
-             "validated per output, not proved for all inputs."),
+             "cell stored once, cell count = number of distinct reachable sub-cells); (iii) theorem reorder_valid / "
+             "import_roots_valid — for every post-order cell array and any weights the model of reorderCells/revisit "
+             "terminates within its fuel, emits each imported cell exactly once, remaps every reference exactly once to a "
+             "strictly smaller new index (references strictly forward in the emitted order, the premise of parse_layout) "
+             "and returns the roots' new indices. Only the byte emission of serializeBoc (bytes = layout of the reordered "
+             "cells) remains validated per output by the certificate."),
     'design_ref': 'DESIGN.md §6 C01',
     'note': ("Trusted: Coq kernel, extraction, drivers, Go harness, the layout spec. 'Stored once' is up to SHA-256 "
-             "collisions. < 2^24 cells. The serialiser half is translation-validation strength (certificate per output)."),
-    'technique': 'Coq proof of parser-inverts-layout + byte-exact extracted serialiser model with per-output certificate',
+             "collisions. < 2^24 cells. The byte-emission step of the serialiser is translation-validation strength "
+             "(certificate per output); ordering, de-duplication and reference remapping are proved."),
+    'technique': 'Coq proofs (parser inverts layout; reorder/import validity for all DAGs) + byte-exact extracted serialiser model with per-output certificate',
 }
 
 META['C18'] = {
